@@ -5,12 +5,20 @@ PID = "C20"
 MANIFEST = dict(
     text="Theorems identity_transparent (any stack of identity middlewares leaves status, body bytes and — for distinct header "
          "names — the header list unchanged up to name case), edit_one_header (a header-editing middleware changes exactly that "
-         "header), relay_reads_once, and the refutations duplicate_headers_refuted / zero_copy_refuted (the two recorded findings) "
-         "about the Gallina model of NextResponse.from_app + re-rendering on both interfaces. The model is given what the bare "
-         "application emitted and is compared with the live middleware stacks (depth 0-3) around every response class and raw apps.",
+         "header), wsgi_failures_transparent (for EVERY behaviour of a WSGI application that calls start_response once without "
+         "exc_info, first — items, empty items, replacing the response through exc_info at any point, failing at any point — "
+         "what a conforming server delivers through any stack of identity middlewares is what it delivers for the bare "
+         "application: completed / aborted after the same bytes / failed before anything went out), asgi_relay_transparent, "
+         "asgi_failure_surfaces_early, and the refutations duplicate_headers_refuted / zero_copy_refuted / "
+         "asgi_late_failure_refuted (the three recorded findings) and wsgi_relay_orig_refuted (the repaired defect) about the "
+         "Gallina model of NextResponse.from_app + ensure_next / CachedStream + re-rendering on both interfaces. The model is "
+         "given what the bare application emitted, or the script of its actions, and is compared with the live middleware "
+         "stacks (depth 0-3) around every response class, raw apps, scripted failing apps and bodies around the 1 MiB spool limit.",
     note="Modelled, not verified: the relay as a transformer of the inner application's emitted trace (status, header list, body "
          "events); chunk boundaries are not compared (the property speaks of body bytes). Known findings: repeated response headers "
-         "are comma-joined; with the zero-copy extension the ASGI relay drops the file body.",
+         "are comma-joined; with the zero-copy extension the ASGI relay drops the file body; an ASGI application failing after its response start is relayed as failing before it. "
+         "A conforming server is modelled per PEP 3333 (exc_info replaces the response until the first non-empty item has gone out, "
+         "re-raises afterwards); the application does not catch what start_response re-raises.",
     technique="Coq proof (header-store lemmas, induction on stack depth, refutation witnesses) + executable model/implementation correspondence",
     ref="5/C20")
 RULE = ("cases: inner applications = every response recipe of C05's generator (all classes, several cookies, unknown status codes, "
@@ -86,7 +94,79 @@ def inner_cases(tier, rng):
     yield ["zerocopy", c02.mk(False, "bytes=1-3", None, 7, 3)]
 
 
+CT = [["Content-Type", "text/plain"]]
+ERRH = [["Content-Type", "text/html"], ["Retry-After", "3"]]
+# scripted applications: what the application does, step by step.  WSGI: s = start_response(status, headers),
+# r = start_response(status, headers, exc_info), y = yield an item, x = raise.  ASGI: s = response start,
+# b = body event, x = raise.  (C20/Acts.v)
+W_SCRIPTS = [
+    [["s", 200, CT], ["y", b"a"], ["y", b"b"]],
+    [["s", 200, CT], ["x"]],
+    [["s", 200, CT], ["y", b""], ["x"]],
+    [["s", 200, CT], ["y", b"part1"], ["x"]],
+    [["s", 200, CT], ["y", b"a"], ["y", b""], ["y", b"b"], ["x"]],
+    [["x"]],
+    [["s", 200, CT], ["r", 503, ERRH], ["y", b"unavailable"]],
+    [["s", 200, CT], ["r", 500, ERRH], ["r", 502, CT], ["y", b"bad gateway"]],
+    [["s", 200, CT], ["y", b""], ["r", 500, ERRH], ["y", b"error page"]],
+    [["s", 200, CT], ["y", b""], ["y", b""], ["r", 500, ERRH], ["y", b""], ["y", b"error page"], ["y", b"!"]],
+    [["s", 200, CT], ["y", b"part1"], ["r", 500, ERRH], ["y", b"error page"]],
+    [["s", 200, CT], ["y", b""], ["y", b"p"], ["y", b"q"], ["r", 500, ERRH], ["y", b"error page"]],
+    [["s", 200, CT], ["r", 500, ERRH], ["x"]],
+    [["s", 200, CT], ["r", 500, ERRH], ["y", b"e"], ["x"]],
+    [["s", 204, []]],
+    [["s", 200, CT], ["y", b""]],
+    [["s", 200, CT], ["y", b""], ["r", 500, ERRH]],
+]
+A_SCRIPTS = [
+    [["s", 200, CT], ["b", b"a"], ["b", b"b"]],
+    [["s", 200, CT], ["x"]],
+    [["s", 200, CT], ["b", b""], ["x"]],
+    [["s", 200, CT], ["b", b"part1"], ["x"]],
+    [["s", 200, CT], ["b", b"a"], ["b", b""], ["b", b"b"], ["x"]],
+    [["x"]],
+    [["s", 503, ERRH], ["b", b"unavailable"]],
+    [["s", 204, []], ["b", b""]],
+]
+
+
+def rand_w_script(rng):
+    sc = [["s", rng.choice([200, 201, 299]), rng.choice([CT, ERRH, []])]]
+    for _ in range(rng.randrange(0, 7)):
+        r = rng.random()
+        if r < 0.5:
+            sc.append(["y", rng.choice([b"", b"", b"a", b"bc", b"xyz"])])
+        elif r < 0.8:
+            sc.append(["r", rng.choice([500, 503]), rng.choice([CT, ERRH])])
+        else:
+            sc.append(["x"])
+            break
+    return sc
+
+
+def rand_a_script(rng):
+    sc = [["s", rng.choice([200, 201, 299]), rng.choice([CT, ERRH, []])]]
+    for _ in range(rng.randrange(0, 6)):
+        if rng.random() < 0.8:
+            sc.append(["b", rng.choice([b"", b"a", b"bc"])])
+        else:
+            sc.append(["x"])
+            break
+    return sc
+
+
+def acts_cases(tier, rng):
+    for i, w in enumerate(W_SCRIPTS):
+        a = A_SCRIPTS[i % len(A_SCRIPTS)]
+        for st in STACKS:
+            for form in ("gen", "call"):
+                yield "scripted", [["acts", w, a, form], st]
+    for _ in range(150 if tier == "quick" else 3000):
+        yield "scripted-random", [["acts", rand_w_script(rng), rand_a_script(rng), rng.choice(["gen", "call"])], rng.choice(STACKS)]
+
+
 def cases(tier, rng):
+    yield from acts_cases(tier, rng)
     for inner in inner_cases(tier, rng):
         for st in STACKS:
             if inner[0] == "big" and st not in ([], [None], [None, None, None], [["X-Added", "1"]]):
@@ -107,8 +187,100 @@ class Counter:
         self.n = 0
 
 
+class ScriptedFailure(Exception):
+    pass
+
+
+def scripted_wsgi(script, form, counter):
+    def perform(act, start_response):
+        if act[0] == "s":
+            start_response(resp_line(act[1]), [tuple(h) for h in act[2]])
+        elif act[0] == "r":
+            try:
+                raise ScriptedFailure("reported through exc_info")
+            except ScriptedFailure:
+                import sys
+                start_response(resp_line(act[1]), [tuple(h) for h in act[2]], sys.exc_info())
+        elif act[0] == "x":
+            raise ScriptedFailure("raised")
+
+    def app(environ, start_response):
+        counter.n += 1
+        acts = list(script)
+        if form == "call":       # everything before the first item happens in the call itself
+            while acts and acts[0][0] != "y":
+                perform(acts.pop(0), start_response)
+
+        def g():
+            for act in acts:
+                if act[0] == "y":
+                    yield act[1]
+                else:
+                    perform(act, start_response)
+        return g()
+    return app
+
+
+def scripted_asgi(script, counter):
+    async def app(scope, receive, send):
+        counter.n += 1
+        n_body = sum(1 for a in script if a[0] == "b")
+        fails = any(a[0] == "x" for a in script)
+        seen = 0
+        for act in script:
+            if act[0] == "s":
+                await send({"type": "http.response.start", "status": act[1],
+                            "headers": [(k.encode("latin-1"), v.encode("latin-1")) for k, v in act[2]]})
+            elif act[0] == "b":
+                seen += 1
+                await send({"type": "http.response.body", "body": act[1], "more_body": fails or seen < n_body})
+            elif act[0] == "x":
+                raise ScriptedFailure("raised")
+        if n_body == 0 and not fails:
+            await send({"type": "http.response.body", "body": b"", "more_body": False})
+    return app
+
+
+def resp_line(status):
+    from http import HTTPStatus
+    try:
+        return "%d %s" % (status, HTTPStatus(status).phrase)
+    except ValueError:
+        return "%d Custom" % status
+
+
+def outcome_wsgi(app):
+    starts, items, exc = call_wsgi_server(app, util.wsgi_environ("GET"))
+    body = b"".join(items)
+    if exc is not None and not isinstance(exc, ScriptedFailure):
+        return ["exc", type(exc).__name__, str(exc)[:80]]
+    if exc is not None:
+        if body and starts:
+            return [int(starts[0][0].split(" ")[0]), sorted([k, v] for k, v in starts[0][1]), body, "aborted"]
+        return ["raised"]
+    if not starts:
+        return ["raised"]
+    return [int(starts[0][0].split(" ")[0]), sorted([k, v] for k, v in starts[0][1]), body]
+
+
+def outcome_asgi(app):
+    sent, exc = util.call_asgi(app, util.http_scope("GET"))
+    if exc is not None and not isinstance(exc, ScriptedFailure):
+        return ["exc", type(exc).__name__, str(exc)[:80]]
+    start = sent[0] if sent and sent[0]["type"] == "http.response.start" else None
+    if start is None:
+        return ["raised"]
+    hl = sorted([k.decode("latin-1"), v.decode("latin-1")] for k, v in start.get("headers", []))
+    body = b"".join(m.get("body", b"") for m in sent[1:])
+    if exc is not None:
+        return [int(start["status"]), hl, body, "aborted"]
+    return [int(start["status"]), hl, body]
+
+
 def inner_app(inner, iface, counter):
     kind = inner[0]
+    if kind == "acts":
+        return scripted_wsgi(inner[1], inner[3], counter) if iface == "wsgi" else scripted_asgi(inner[2], counter)
     if kind in ("recipe", "zerocopy"):
         recipe = inner[1]
         if iface == "wsgi":
@@ -285,6 +457,8 @@ def bare(inner):
 
 def ENCODE(case):
     inner, st = case
+    if inner[0] == "acts":
+        return core.enc_line(["acts", inner[1], inner[2], [a_ if a_ is not None else [] for a_ in st]])
     w, a = bare(inner)
     if not isinstance(w[0], int) or not isinstance(a[0], int):
         return core.enc_line(["bare-failed", repr(w)[:100], repr(a)[:100]])
@@ -296,6 +470,13 @@ def ENCODE(case):
 def impl(case):
     inner, st = case
     cw, ca = Counter(), Counter()
+    if inner[0] == "acts":
+        bw, ba = Counter(), Counter()
+        out = [outcome_wsgi(wrap(inner_app(inner, "wsgi", cw), st, "wsgi")), outcome_asgi(wrap(inner_app(inner, "asgi", ca), st, "asgi")),
+               outcome_wsgi(inner_app(inner, "wsgi", bw)), outcome_asgi(inner_app(inner, "asgi", ba))]
+        if cw.n != 1 or ca.n != 1:
+            out.append(["inner-invocations", cw.n, ca.n])
+        return out
     w = run_wsgi(wrap(inner_app(inner, "wsgi", cw), st, "wsgi"), inner)
     a = run_asgi(wrap(inner_app(inner, "asgi", ca), st, "asgi"), inner)
     bw, ba = bare(inner)
@@ -325,6 +506,8 @@ def oracle(case, obs):
     bw, ba = obs[2], obs[3]
     if len(obs) > 4:
         return ("inner-run-count", "the inner application ran %r times (wsgi, asgi)" % (obs[4][1:],))
+    if inner[0] == "acts":
+        return oracle_acts(inner, st, obs)
     for which, o, b in (("wsgi", obs[0], bw), ("asgi", obs[1], ba)):
         if not isinstance(b[0], int):
             continue
@@ -344,12 +527,41 @@ def oracle(case, obs):
     return None
 
 
+def oracle_acts(inner, st, obs):
+    """outcome of the wrapped application = outcome of the bare one (kind, status, body; headers up to the case of names
+    and the edits of the stack)"""
+    for which, o, b in (("wsgi", obs[0], obs[2]), ("asgi", obs[1], obs[3])):
+        if o and o[0] == "exc":
+            return ("%s-exc-%s" % (which, o[1]), "%s: wrapped scripted application raised %r (stack %r)" % (which, o, st))
+        kind_o = "raised" if o == ["raised"] else ("aborted" if len(o) == 4 else "completed")
+        kind_b = "raised" if b == ["raised"] else ("aborted" if len(b) == 4 else "completed")
+        script = inner[1] if which == "wsgi" else inner[2]
+        if kind_o != kind_b:
+            sig = "asgi-late-failure-surfaces-early" if (which == "asgi" and kind_b == "aborted" and kind_o == "raised" and st) else which + "-outcome-kind-changed"
+            return (sig, "%s: application script %r: bare outcome %r, behind the stack %r: %r" % (which, script, b, st, o))
+        if kind_o == "raised":
+            continue
+        if o[0] != b[0]:
+            return (which + "-status-changed", "%s: script %r: status %r, bare %r" % (which, script, o[0], b[0]))
+        if o[2] != b[2]:
+            return (which + "-body-changed", "%s: script %r: body %r, bare %r" % (which, script, o[2], b[2]))
+        exp = expected_headers([[k.lower(), v] for k, v in b[1]], st) if st else sorted(b[1])
+        if o[1] != exp:
+            return (which + "-headers-changed", "%s: script %r: headers %r, expected %r" % (which, script, o[1], exp))
+    return None
+
+
 def nontrivial(case, obs):
     return len(case[1]) >= 1
 
 
 def shrink(case):
     inner, st = case
+    if inner[0] == "acts":
+        for i in range(1, len(inner[1])):
+            yield [["acts", inner[1][:i] + inner[1][i + 1:], inner[2], inner[3]], st]
+        for i in range(1, len(inner[2])):
+            yield [["acts", inner[1], inner[2][:i] + inner[2][i + 1:], inner[3]], st]
     for i in range(len(st)):
         yield [inner, st[:i] + st[i + 1:]]
     for i in range(len(st)):
